@@ -6,7 +6,8 @@ import mwh, gen, relations as REL
 ROOT = mwh.ROOT
 
 TRUSTED_BASE = [
-    "Coq 8.16.1 kernel (coqc, full .vo build; vm_compute used only for closed Examples; no native_compute)",
+    "Coq 8.16.1 kernel (coqc, full .vo build; vm_compute used only for closed Examples; no native_compute); axioms: none (Print Assumptions under every theorem: Closed under the global context)",
+    "the Paramcoq plugin (Rename.v, C20) only GENERATES the parametricity translation of the model; the generated definitions are checked by the kernel like hand-written ones",
     "extraction (Require Extraction + ExtrOcamlBasic only: bool/option/list/prod/unit/sumbool -> OCaml; no Extract Constant, no other Extract Inductive), OCaml 4.13.1 compiler",
     "driver/main.ml: tokenizer, binary64 instance of Num (incl. numpy pairwise sum and CPython 3.12 compensated sum re-implemented in OCaml), tape RngOps, printers",
     "harness/*.py: generators, GenProxy recording of numpy Generator requests, oracle capture (argpartition, k-means labels, tree leaves, cosine distances), canonicalisation and comparison",
